@@ -55,6 +55,10 @@ def apply_op(B, m, op, i, C, D, ubm=None):
         path = B.h5path("m%d.h5" % i)
         m.save(B.h5file(path, "w"))
         other = gmm.GMMMachine(C, trainer=m.trainer, ubm=ubm)
+        # the loading object has parameters and (possibly higher) floors of its own
+        other.means = B.arr(tag + "om", (C, D))
+        other.variance_thresholds = B.real(tag + "ot", pos=True)
+        other.variances = B.arr(tag + "ov", (C, D), pos=True)
         other.load(B.h5file(path, "r"))
         m = other
     elif op == "init-gaussians":
